@@ -505,11 +505,18 @@ class G:
     def _direct(self, desc):
         """Labels of a bool helper result under which the guard holds, when the helper returns the guarded expression."""
         m = re.match(r'^(Eq|Ne)\((.*)\)$', desc)
+        if m is None:
+            m2 = re.match(r'^call:PartialEq(?: for [^>]*)?>?::(eq|ne)\((.*)\)$', desc)
+            if m2:
+                m = re.match(r'^(Eq|Ne)\((.*)\)$', '%s(%s)' % ('Eq' if m2.group(1) == 'eq' else 'Ne', m2.group(2)))
         if self.cmp is not None and m and all(pt in m.group(2) for pt in self.cmp):
             eq_wanted = self.cmp_want == {'Equal'}
             if m.group(1) == 'Eq':
                 return {'true'} if eq_wanted else {'false'}
             return {'false'} if eq_wanted else {'true'}
+        if self.field is not None and (desc.endswith('.' + self.field) or desc.endswith('.' + self.field + ')')) \
+                and self.labels <= {'true', 'false'}:
+            return set(self.labels)
         if self.call is not None:
             pats = self.call if isinstance(self.call, (list, tuple)) else [self.call]
             names = [pp[3:].rstrip('$') if pp.startswith('re:') else pp.split('::')[-1] for pp in pats]
@@ -589,6 +596,29 @@ class G:
                     if labs and labs <= self.cmp_want:
                         out.append((sbb, tb))
         return out, sws
+
+
+class AnyG(G):
+    """Disjunction of guards: an edge passes if it is a pass edge of any member (e.g. `!(filter && dubious)`)."""
+
+    def __init__(self, name, members):
+        G.__init__(self, name)
+        self.members = members
+
+    def _edges_direct(self, body):
+        out, sws = [], []
+        for g in self.members:
+            e, sw = g._edges_direct(body)
+            out += e
+            sws += [x for x in sw if x not in sws]
+        return out, sws
+
+    def _direct(self, desc):
+        for g in self.members:
+            d = g._direct(desc)
+            if d is not None:
+                return d
+        return None
 
 
 def require_guards(ctx, rule, body, sinks, guards, what, floor=1):
